@@ -260,7 +260,7 @@ def bounded_roundtrips(seed, quick):
         for binary, endian, sparse in combos:
             for cplx in (False, True):
                 for input_sparse in (False, True):
-                    nrep = 1 if quick else 4
+                    nrep = 1 if quick else 12
                     for rep in range(nrep):
                         it += 1
                         mats, names, forms = [], [], []
